@@ -57,7 +57,8 @@ func buildGroovyMap(pathExprCtx *parser.PathExpressionContext) []core_domain.Cod
 			expressionContext := pathElement.ClosureOrLambdaExpression().(*parser.ClosureOrLambdaExpressionContext)
 			if reflect.TypeOf(expressionContext.GetChild(0)).String() == "*parser.ClosureContext" {
 				closureContext := expressionContext.GetChild(0).(*parser.ClosureContext)
-				nodeDeps = buildBlockStatements(closureContext)
+				// a script may have several dependencies blocks: Gradle merges them
+				nodeDeps = append(nodeDeps, buildBlockStatements(closureContext)...)
 				return nodeDeps
 			}
 		}
